@@ -216,10 +216,13 @@ def loom_layer(run, tier):
     if v.returncode != 0:
         run.machinery.append("mpsc shim validation failed: " + v.stderr.decode(errors="replace")[-600:]); return
     run.validated += json.loads(v.stdout)["mpsc_sequences_validated"]
-    configs = [(2, 2, 2), (3, 2, 2)] if tier == "quick" else [(2, 2, 3), (3, 2, 3), (3, 3, 2), (2, 3, 3)]
+    configs = [(2, 2, 2), (3, 2, 2)] if tier == "quick" else [(2, 2, 3), (3, 2, 3), (3, 3, 2)]
     loom = []
     for k, n, b in configs:
-        p = subprocess.run([exe, str(k), str(n), str(b)], stdout=subprocess.PIPE, stderr=subprocess.PIPE)
+        try:
+            p = subprocess.run([exe, str(k), str(n), str(b)], stdout=subprocess.PIPE, stderr=subprocess.PIPE, timeout=900)
+        except subprocess.TimeoutExpired:
+            run.exhaustive = False; run.count("loom_wall_cap_hit"); continue
         err = p.stderr.decode(errors="replace")
         if p.returncode == 0:
             res = json.loads(p.stdout.decode().strip().splitlines()[-1])
@@ -238,7 +241,25 @@ def loom_layer(run, tier):
                                 "replay": f"/verif/target-sched/release/vsched {k} {n} {b}"})
     run.extra["loom"] = loom
 
+def replay(path):
+    a = json.load(open(path))["replay"]
+    anthem = build_anthem()
+    if a.get("layer") == "loom":
+        r = subprocess.run(a["replay"].split(), stdout=subprocess.PIPE, stderr=subprocess.PIPE)
+        print(r.stderr.decode(errors="replace")[-800:] or r.stdout.decode()[-400:]); sys.exit(0 if r.returncode == 0 else 1)
+    if "k" not in a:
+        print("replay: not a schedule artefact"); sys.exit(2)
+    seen = []
+    for _ in range(2):
+        obs, choices = one_run(anthem, None, a["k"], a["instances"], a["outcomes"], a["schedule_choices"], a["decomposition"])
+        seen.append(sorted(k for k, _ in judge(obs, a["k"], a["outcomes"])))
+    print("replay k=%d n=%d outcomes=%s schedule=%s -> %s" % (a["k"], a["instances"], a["outcomes"], a["schedule_choices"], seen[0]))
+    if seen[0] != seen[1]: print("replay: NON-DETERMINISTIC"); sys.exit(2)
+    sys.exit(1 if seen[0] else 0)
+
 def main():
+    if "--replay" in sys.argv:
+        replay(sys.argv[sys.argv.index("--replay") + 1])
     tier = tier_from_args()
     anthem = build_anthem()
     run = Run("C10", tier)
